@@ -4,6 +4,7 @@ C03 — every emitted program is well-formed and shutter-safe, even after errors
 import FemtoVerif.Proofs.Session
 import FemtoVerif.Proofs.Good
 import FemtoVerif.Proofs.WriteLemmas
+import FemtoVerif.Proofs.Rot
 import FemtoVerif.Spec.WF
 import FemtoVerif.Gen.Data
 
@@ -483,6 +484,29 @@ theorem farcallList_balanced (cfg : Cfg) (items : List (String × Nat)) (cs : CS
         simp [seq, dwell_loaded, h1]
       generalize (seq (dwell cfg.shortPause R.cs) fun cs => (emit [Instr.blank, Instr.blank], cs)) = S at h2
       rw [ih S.2 (fun it hit => by rw [h2]; exact hnew it (by simp [hit])), h2]
+
+/-! ### axis rotation -/
+
+/-- **An activated axis rotation is deactivated.**  In program order the G84 state after the written file is "off" — for every
+configuration (session-wide Aerotech angle or not), every sequence of operations with any nesting of axis-rotation blocks
+inside loops and inside each other, and wherever an operation was rejected or the user's code raised: `G84` lines come only
+from entering and leaving a rotation, and every rotation block (and the session-wide one) is closed by the leaving sequence,
+which ends with `G84 X Y`. -/
+theorem session_rotation_off (cfg : Cfg) (ops : List Op) (hh : scanRot cfg.header false = false) :
+    scanRot (flattenStmts (session cfg ops).1) false = false :=
+  session_rot_off cfg ops hh
+
+/-- the leaving sequence switches the rotation off from any state -/
+theorem exit_rotation_off (cfg : Cfg) (cs : CS) (r : Bool) : scanRot (flattenStmts (exitRot cfg cs).1) r = false :=
+  exitRot_off cfg cs r
+
+/-- the shipped headers leave the rotation off (hypothesis of `session_rotation_off`) -/
+theorem shipped_headers_rotation_off : ∀ h ∈ Femto.Gen.headers, scanRot h.2.2 false = false := by decide
+
+/-- non-vacuity: a rotation block whose body raises inside a loop, under a session-wide rotation -/
+example : scanRot (flattenStmts (session { header := Femto.Gen.header_uwe, aeroAngle := 30 }
+    [.axisRot (some 12) [.rep 3 [.dwell (some 1), .raise]], .goOrigin]).1) false = false :=
+  session_rotation_off _ _ (by decide)
 
 /-! ### the shipped headers -/
 
